@@ -4,6 +4,8 @@
 
   DEFECT SWITCHES in this file (unchanged code = what is defined; repaired form in the comment):
     D15  `rangeTooBig`, `erangeRejected`   (u64 wrap of hi-lo+1; strtoul's ERANGE ignored)
+    D25  `ulongMaxRejected`                 (a bound of exactly 2^64-1 is accepted)
+    D23  `HOSTBUF` / `suffixedName`         (names on the suffix path are cut to 4095 bytes)
     D16  `boundTextOk`                      (bounds need not be digit strings)
     D18  `curTok`                           (strncpy into cur_tok[1024] without terminator)
     D22  `suffixOk`                         (text after the first `]` is never checked for brackets)
@@ -93,10 +95,17 @@ def hiPartOf : Option Str → Option Strtoul
   | some (c :: t) => some (strtoul (c :: t))
   | _ => none
 
+/-- DEFECT D25: a bound equal to 2^64-1 is accepted although the rest of the library uses that
+    value as a sentinel (`hostrange_empty`: hi == -1 means empty; `for (j = lo; j <= hi; j++)`
+    cannot end; `tail->hi == hr->lo - 1` joins across the wrap).   Repaired form: `true`
+    (refuse hi = ULONG_MAX as too large). -/
+def ulongMaxRejected : Bool := false
+
 /-- the last two tests of `_parse_single_range`: order, size -/
 def rangeCheck (errno width lo hi : Nat) (clamped : Bool) : PR :=
   if lo > hi then .fail EINVAL .invalidRange
-  else if rangeTooBig lo hi || (erangeRejected && clamped) then .fail ERANGE .tooMany
+  else if rangeTooBig lo hi || (erangeRejected && clamped) || (ulongMaxRejected && hi = ULONG_MAX) then
+    .fail ERANGE .tooMany
   else .ok ⟨lo, hi, width⟩ errno
 
 /-- `_parse_single_range(str, &range)`; `errno` is threaded because a stale value can surface
